@@ -4,6 +4,7 @@ import RockitModel.Model.Sample
 import Mathlib.Algebra.Order.Field.Basic
 import Mathlib.Tactic.Linarith
 import RockitModel.Proofs.RKTie
+import RockitModel.Props.C02
 /-!
 # C08 — refined sampling and samplers interpolate the discrete solution consistently
 -/
@@ -84,6 +85,28 @@ theorem rk4_dense_not_exact_state_dependent :
 theorem euler_dense_exact_const (a : V) (qf : V → K → Q) (x : V) (t h DTc s : K) :
     densePoly (eulerStep (fun x' t' => (a, qf x' t')) x t h DTc).coeff s = x + s • a := by
   simp only [eulerStep, densePoly2]
+
+/-! ### collocation: the step polynomial of the refined samples -/
+section collocation_dense
+
+/-- the step polynomial starts at the step's start state and passes through the helper states (any pairwise distinct points) -/
+theorem colloc_dense_through_states (tau : List K) (hn : ((0:K) :: tau).Nodup) (Xc : List V) (hl : Xc.length = tau.length + 1)
+    (j : Nat) (hj : j < tau.length + 1) :
+    C02.vpoly ((0:K) :: tau) Xc (((0:K) :: tau)[j]'(by simpa using hj)) = Xc[j]'(by omega) :=
+  C02.interpolates ((0:K) :: tau) hn Xc (by simpa using hl) j (by simpa using hj)
+
+/-- … its end value is what the continuity row compares with the next start state: the refined trajectory is continuous at every point
+satisfying the dynamic constraints -/
+theorem colloc_dense_end (tau : List K) (Xc : List V) :
+    collocEnd (collocCoeff tau).D Xc = C02.vpoly ((0:K) :: tau) Xc 1 := C02.end_is_value_at_one tau Xc
+
+/-- … and it is EXACT whenever the true solution is a polynomial of degree ≤ d on the step (every degree, any pairwise distinct points):
+with the helper states on the solution, the step polynomial IS the solution at every local time -/
+theorem colloc_dense_exact (tau : List K) (hn : ((0:K) :: tau).Nodup) (q : List K) (hq : q.length ≤ tau.length + 1) (s : K) :
+    C02.vpoly ((0:K) :: tau) (((0:K) :: tau).map (LP.eval q)) s = LP.eval q s :=
+  C02.vpoly_of_polynomial _ hn (by simp) q (by simpa using hq) s
+
+end collocation_dense
 
 /-- collocation: the coefficient list `p_i / h^i` is the power basis of `s ↦ p(s/h)` (local physical time) -/
 theorem eval_scale (p : List K) (h s : K) (hh : h ≠ 0) (n : Nat) :
